@@ -4,6 +4,7 @@ import ast
 
 from .. import astutil as A
 from ..fa import FA
+from ..loader import AnalysisError
 
 # function -> which key parts its result must depend on.  Confirmed by reading; one line each.
 KEY_SITES = {
@@ -25,6 +26,146 @@ KEY_SITES = {
 
 FORBIDDEN_ATTRS = ("qualified_name_without_version", "qualified_name_without_cluster", "function_name")
 KEY_MODULES = ("storage_base", "storage_memory", "storage_filesystem", "storage", "runner_local", "runner")
+
+
+def _flow_nodes(fa, expr, at, seen=None, out=None):
+    """{id(node): (node, cfg node)} for every expression node whose value can reach `expr` through evaluation and copying
+    (reaching definitions of the local names it reads, augmented assignments included)."""
+    out = out if out is not None else {}
+    seen = seen if seen is not None else set()
+    for n in ast.walk(expr):
+        out.setdefault(id(n), (n, at))
+    for n in ast.walk(expr):
+        if isinstance(n, ast.Name) and isinstance(n.ctx, ast.Load):
+            for d in fa.df.reaching(at, n.id):
+                if d.value is None or (d.node, d.name) in seen:
+                    continue
+                seen.add((d.node, d.name))
+                _flow_nodes(fa, d.value, d.node, seen, out)
+    return out
+
+
+def _formula(text, pol):
+    """A literal (FA's text, polarity) as a boolean formula over leaf propositions: composite texts (`a and b` taken
+    false stays ONE literal in FA) are split; leaves are canonicalised syntactically (`is not` / `!=` / `not in` as
+    negations, operands of == sorted)."""
+    try:
+        e = ast.parse(text, mode="eval").body
+    except SyntaxError:
+        e = None
+
+    def rec(x):
+        if isinstance(x, ast.UnaryOp) and isinstance(x.op, ast.Not):
+            return ("not", rec(x.operand))
+        if isinstance(x, ast.BoolOp):
+            return ("and" if isinstance(x.op, ast.And) else "or",) + tuple(rec(v) for v in x.values)
+        if isinstance(x, ast.Compare) and len(x.ops) == 1:
+            op, l, r = x.ops[0], A.norm(x.left), A.norm(x.comparators[0])
+            neg = {ast.IsNot: "is", ast.NotEq: "==", ast.NotIn: "in"}
+            pos = {ast.Is: "is", ast.Eq: "==", ast.In: "in"}
+            if type(op) in neg or type(op) in pos:
+                sym = neg.get(type(op)) or pos.get(type(op))
+                if sym == "==" and r < l:
+                    l, r = r, l
+                leaf = ("var", "%s %s %s" % (l, sym, r))
+                return ("not", leaf) if type(op) in neg else leaf
+        return ("var", A.norm(x))
+
+    f = rec(e) if e is not None else ("var", text)
+    return f if pol else ("not", f)
+
+
+def _vars(f, out):
+    if f[0] == "var":
+        out.add(f[1])
+    else:
+        for x in f[1:]:
+            _vars(x, out)
+    return out
+
+
+def _ev(f, val):
+    if f[0] == "var":
+        return val[f[1]]
+    if f[0] == "not":
+        return not _ev(f[1], val)
+    if f[0] == "and":
+        return all(_ev(x, val) for x in f[1:])
+    return any(_ev(x, val) for x in f[1:])
+
+
+def dnf_compare(d1, d2, extra2=()):
+    """(d1 implies d2, d2 implies d1) for two path-condition DNFs (sets of frozensets of (text, polarity)) read as
+    boolean functions.  `extra2`: literals conjoined to every conjunct of d2.  Decided by truth table over the leaf
+    propositions; None if there are too many."""
+    import itertools
+    f1 = [[_formula(t, p_) for (t, p_) in c] for c in d1]
+    f2 = [[_formula(t, p_) for (t, p_) in list(c) + list(extra2)] for c in d2]
+    vs = set()
+    for c in f1 + f2:
+        for f in c:
+            _vars(f, vs)
+    vs = sorted(vs)
+    if len(vs) > 16:
+        return None
+    fwd = bwd = True
+    for bits in itertools.product((False, True), repeat=len(vs)):
+        val = dict(zip(vs, bits))
+        a = any(all(_ev(f, val) for f in c) for c in f1)
+        b = any(all(_ev(f, val) for f in c) for c in f2)
+        if a and not b:
+            fwd = False
+        if b and not a:
+            bwd = False
+    return (fwd, bwd)
+
+
+def dnf_equivalent(d1, d2, extra2=()):
+    r = dnf_compare(d1, d2, extra2)
+    return None if r is None else (r[0] and r[1])
+
+
+def _hash_version_exactly_when_versioned(fa, asg, val):
+    """The value bound to the field gets '#' + version appended exactly when `version is not None`: every place where
+    '#' and the version are joined (`+=`, `+`, format, f-string; in a statement under an `if` or in an arm of a
+    conditional expression) and whose result can flow into the value is collected with the condition under which it is
+    evaluated; together these conditions must amount to `version is not None`."""
+    pm = fa.pm
+    dnf = set()
+    for (n, at) in _flow_nodes(fa, val, fa.nodes(asg)[0]).values():
+        parts = A.str_parts(n) if isinstance(n, (ast.BinOp, ast.JoinedStr, ast.Call)) else None
+        if not parts:
+            continue
+        joined = any(k1 == "lit" and v1.endswith("#") and k2 == "expr" and isinstance(v2, ast.Name) and v2.id == "version"
+                     for (k1, v1), (k2, v2) in zip(parts, parts[1:]))
+        if not joined:
+            continue
+        # expression-level guards: arms of conditional expressions around the site
+        guards = []
+        x = n
+        while x is not None and not isinstance(x, ast.stmt):
+            p_ = pm.get(x)
+            if isinstance(p_, ast.IfExp) and x is not p_.test:
+                guards += fa._atoms(p_.test, at, x is p_.body)
+            x = p_
+        st = x
+        conds = fa.conditions(st) if st is not None else None
+        if conds is None:
+            return False
+        for c in conds:
+            lits = set(c) | set(guards)
+            if any((t, not pol) in lits for (t, pol) in lits):
+                continue
+            dnf.add(frozenset(lits))
+    # (a site nested in a larger concatenation is seen twice, with the same condition: harmless)
+    # exactly when versioned: [the '#'+version text is produced] == [the field is assigned] and [version is not None]
+    reach = fa.conditions(asg)
+    if reach is None or not dnf:
+        return False
+    eq = dnf_equivalent(dnf, reach, extra2=[("version is None", False)])
+    if eq is None:
+        raise AnalysisError("%s: too many independent conditions around the construction of the qualified name" % fa.qual)
+    return eq
 
 
 def _ret_exprs(fa: FA):
@@ -82,6 +223,21 @@ def check_keying(ck, rule):
             continue
         fa = FA(ck, qual)
         rets = fa.some(_ret_exprs(fa), "return with a value")
+        # a builder this one used to go through that no longer exists (inlined into its callers): this function
+        # must now carry what that builder had to carry
+        def effective(ps, depth=0):
+            out = []
+            for p_ in ps:
+                if p_.startswith(("via:", "qn-via:")) and depth < 4:
+                    callee = p_.split(":")[1]
+                    cq = qual.rsplit(".", 1)[0] + "." + callee
+                    if ck.repo.try_func(cq) is None and cq in KEY_SITES and not any(A.call_attr(c) == callee for c in fa.calls()):
+                        out += effective(KEY_SITES[cq], depth + 1)
+                        continue
+                out.append(p_)
+            return tuple(dict.fromkeys(out))
+
+        parts_eff = effective(parts)
         for (r, e) in rets:
             deps = set()
             for i in fa.nodes(r):
@@ -90,7 +246,7 @@ def check_keying(ck, rule):
             calls = {d[5:] for d in deps if d.startswith("call:")}
             params = {d[6:] for d in deps if d.startswith("param:")}
             problems = []
-            for p in parts:
+            for p in parts_eff:
                 if p == "qn" and "qualified_name" not in attrs:
                     problems.append("the key does not contain the versioned qualified name")
                 elif p == "ah" and "arg_hash" not in attrs and "arg_hash" not in params:
@@ -126,20 +282,22 @@ def check_keying(ck, rule):
                           A.loc(fi, n))
     # FunctionReference: the qualified name depends on the version
     fa = FA(ck, "reference.FunctionReference.__init__")
-    asg = [s for s in fa.stmts(ast.Assign) if any(A.dotted(t) == "self._qualified_name" for t in s.targets)]
-    asg = fa.one(asg, "assignment to self._qualified_name")
-    deps = fa.deps(asg.value)
-    ok = "param:version" in deps and any(d == "const:'#'" for d in deps)
-    # the '#version' part is appended whenever a version exists
-    acc = asg.value.id if isinstance(asg.value, ast.Name) else None  # the local the name is accumulated in
-    app = [s for s in fa.stmts(ast.AugAssign) if isinstance(s.target, ast.Name) and s.target.id == acc
-           and "version" in A.names_in(s.value) and "#" in A.strings_in(s.value)]
-    guard_ok = False
-    for s in app:
-        g = fa.enclosing(s, ast.If)
-        if g is not None and A.norm(g.test) == "version is not None":
-            guard_ok = True
-    ok = ok and guard_ok
+    # every binding of the field (plain or as one element of a tuple assignment)
+    binds = []
+    for s_ in fa.stmts(ast.Assign):
+        for t in s_.targets:
+            if A.dotted(t) == "self._qualified_name":
+                binds.append((s_, s_.value))
+            elif isinstance(t, (ast.Tuple, ast.List)) and isinstance(s_.value, (ast.Tuple, ast.List)) and len(t.elts) == len(s_.value.elts):
+                for (te, ve) in zip(t.elts, s_.value.elts):
+                    if A.dotted(te) == "self._qualified_name":
+                        binds.append((s_, ve))
+    binds = fa.some(binds, "assignment to self._qualified_name")
+    ok = True
+    for (asg, val) in binds:
+        deps = fa.deps(val, fa.nodes(asg)[0])
+        ok = ok and "param:version" in deps and any(d == "const:'#'" for d in deps) and _hash_version_exactly_when_versioned(fa, asg, val)
+    asg = binds[0][0]
     ck.ob(rule, fa.key(None, "versioned-name"), ok, "qualified_name = name + '#' + version whenever a version exists" if ok else
           "the qualified name is not extended with '#'+version whenever a version exists", fa.where(asg))
     # the property returns that very field
